@@ -451,3 +451,25 @@ package mobius
 //@   before call strings.ReplaceAll#1 assert arg1 == "\n" && arg2 == lineEndings
 //@   before call strings.ReplaceAll#2 assert arg0 == callres("strings.ReplaceAll#1") && arg1 == "\r\n" && arg2 == lineEndings
 //@   ensures err == nil ==> bytes(r.data) == bytes(callres("strings.ReplaceAll#2")) && r.lineEndings == lineEndings
+
+// C18: the remaining tree operations.  Deleting an item removes the key named by the last path
+// element (and only then saves); article lookups and listings are built from the category at the end of the
+// path; all of it under the mutex.
+
+//@ func (n *ThreadedNewsYAML) DeleteNewsItem(newsPath []string) (err error)
+//@   property C18
+//@   requires n != nil && len(newsPath) >= 1
+//@   before call builtin.delete assert arg1 == newsPath[len(newsPath)-1] && locked(n, "mu")
+//@   before call (*mobius.ThreadedNewsYAML).writeFile assert called("builtin.delete") && locked(n, "mu")
+//@   guarded_by n.mu: ThreadedNews
+
+//@ func (n *ThreadedNewsYAML) GetArticle(newsPath []string, articleID uint32) (r *hotline.NewsArtData)
+//@   property C18
+//@   requires n != nil
+//@   guarded_by n.mu: ThreadedNews
+
+//@ func (n *ThreadedNewsYAML) ListArticles(newsPath []string) (r hotline.NewsArtListData)
+//@   property C18
+//@   requires n != nil
+//@   before call (*hotline.NewsCategoryListData15).GetNewsArtListData assert locked(n, "mu")
+//@   guarded_by n.mu: ThreadedNews
